@@ -4,6 +4,7 @@
   decision model; the tie to the code is the exhaustive mask sweep with the ISA trace hook.
 -/
 import RSVerif.Proofs.AllocSelect
+import RSVerif.Gen.Statics
 
 namespace RS
 
@@ -31,5 +32,16 @@ theorem select_arm (neon : Bool) :
   ⟨selectNewArm_legal neon, selectEvalArm_legal neon, selectNewArm_eq_eval neon,
    fun i => selectNewArm_best neon i, fun i h => executedArm_legal neon i h,
    selectNewArm_portable_iff neon⟩
+
+/-- what "code compiled for ISA X" means is decided by the `#[target_feature(enable = …)]` attributes; the
+    selection model above (and the ISA trace, which the functions report by hand) ASSUME that every such
+    function in `engine_<x>.rs` is compiled for exactly `<x>` and is named `…_<x>`.  `Gen/Statics.lean`
+    (regenerated from today's source on every run) lists the twelve attributes; this re-checks the assumption:
+    four functions per SIMD engine, each compiled for its own engine's ISA and nothing else -/
+theorem source_target_features_match_their_engine :
+    (∀ t ∈ RS.Gen.targetFeatures, t.1 = t.2.1 ∧ t.2.2 = true) ∧
+    (RS.Gen.targetFeatures.filter (fun t => t.1 == 2)).length = 4 ∧
+    (RS.Gen.targetFeatures.filter (fun t => t.1 == 1)).length = 4 ∧
+    (RS.Gen.targetFeatures.filter (fun t => t.1 == 4)).length = 4 := by decide
 
 end RS
